@@ -290,6 +290,30 @@ def _production_case(args):
                 ch.rejuvenate()
                 out += chk(ch, "dclab.rtdc_dataset.fmt_hierarchy.events:"
                            "ChildScalar", f"child after refresh ({first})")
+                # the parent's *data* change while its filter stays as it
+                # is (the frame rate enters "time"; a temporary feature is
+                # replaced): summaries asked for before must not survive
+                gen.register_user_features()
+                nn = len(ds)
+                dclab.set_temporary_feature(ds, gen.USER_SCALAR,
+                                            np.arange(nn) * 2.0)
+                gch = dclab.new_dataset(ch)
+                for dd in (ch, gch):
+                    dd.rejuvenate()
+                    for f_ in ("time", gen.USER_SCALAR):
+                        dd[f_].mean(), dd[f_].min(), dd[f_].max()
+                ds.config["imaging"]["frame rate"] = 3 * float(
+                    ds.config["imaging"]["frame rate"])
+                dclab.set_temporary_feature(ds, gen.USER_SCALAR,
+                                            100.0 - np.arange(nn) * 3.0)
+                gch.rejuvenate()
+                for name, dd in (("child", ch), ("grandchild", gch)):
+                    out += summary_violations(
+                        dd, ["time", gen.USER_SCALAR, "deform"],
+                        "dclab.rtdc_dataset.fmt_hierarchy.events:"
+                        "ChildScalar", case, tags,
+                        f"{name} after the parent's data changed (filter "
+                        f"unchanged)")
         elif step in ("hierarchy-nofilter", "hierarchy-dict"):
             # a child that keeps every event; parents whose features are
             # plain arrays (dict dataset, temporary / computed features)
